@@ -132,6 +132,117 @@ def strip_seq_wrappers(e: ast.AST) -> Tuple[ast.AST, List[str]]:
         return e, bad
 
 
+def _loop_as_comprehension(loop: ast.For, acc: str):
+    """symbolic execution of the body of `for v in X:` that appends at most once per iteration to the list `acc`:
+    straight-line assignments to body locals, if / elif / else, `continue`, `acc.append(E)`.  Every path that appends gives
+    (path condition, E) with the body locals substituted  ->  [E1 if c1 else E2 if c2 ... for v in X if c1 or c2 ...];  None when the
+    body does anything else"""
+    import copy as _copy
+    from sa.flow import subst
+    if not isinstance(loop.target, ast.Name) or loop.orelse:
+        return None
+    v = loop.target.id
+
+    def const(e):
+        """tests that are constant inside the loop: <loop variable> is [not] None (elements of a task list are never None)"""
+        m = match(f"{v} is not None", e)
+        if m is not None:
+            return True
+        m = match(f"{v} is None", e)
+        if m is not None:
+            return False
+        if isinstance(e, ast.BoolOp):
+            vals = [const(x) for x in e.values]
+            if isinstance(e.op, ast.And):
+                if any(x is False for x in vals):
+                    return False
+                if all(x is True for x in vals):
+                    return True
+            else:
+                if any(x is True for x in vals):
+                    return True
+                if all(x is False for x in vals):
+                    return False
+        if isinstance(e, ast.UnaryOp) and isinstance(e.op, ast.Not):
+            c = const(e.operand)
+            return None if c is None else not c
+        return None
+
+    def simplify(e):
+        if isinstance(e, ast.BoolOp):
+            vals = [simplify(x) for x in e.values]
+            keep = [x for x in vals if const(x) is None]
+            if const(e) is None and keep and len(keep) < len(vals):
+                return keep[0] if len(keep) == 1 else ast.BoolOp(op=e.op, values=keep)
+        return e
+    done = []          # (conds, appended or None)
+
+    def run(stmts, env, conds, appended):
+        """-> list of (env, conds, appended) of the paths that fall through, or None on an unsupported statement"""
+        paths = [(env, conds, appended)]
+        for st in stmts:
+            nxt = []
+            for env, conds, appended in paths:
+                if isinstance(st, ast.Expr) and isinstance(st.value, ast.Constant) or isinstance(st, ast.Pass):
+                    nxt.append((env, conds, appended))
+                elif isinstance(st, ast.Continue):
+                    done.append((conds, appended))
+                elif isinstance(st, (ast.Assign, ast.AnnAssign)) and st.value is not None:
+                    tg = st.targets if isinstance(st, ast.Assign) else [st.target]
+                    if len(tg) != 1 or not isinstance(tg[0], ast.Name) or tg[0].id in (acc, v):
+                        return None
+                    e2 = dict(env)
+                    e2[tg[0].id] = subst(_copy.deepcopy(st.value), env)
+                    nxt.append((e2, conds, appended))
+                elif isinstance(st, ast.Expr) and isinstance(st.value, ast.Call) and match(f"{acc}.append($e)", st.value):
+                    if appended is not None:
+                        return None
+                    nxt.append((env, conds, subst(_copy.deepcopy(st.value.args[0]), env)))
+                elif isinstance(st, ast.If):
+                    t = simplify(subst(_copy.deepcopy(st.test), env))
+                    c = const(t)
+                    if c is not False:
+                        r = run(st.body, env, conds + ([] if c is True else [(t, True)]), appended)
+                        if r is None:
+                            return None
+                        nxt += r
+                    if c is not True:
+                        r = run(st.orelse, env, conds + ([] if c is False else [(t, False)]), appended)
+                        if r is None:
+                            return None
+                        nxt += r
+                else:
+                    return None
+            paths = nxt
+        return paths
+    rest = run(loop.body, {}, [], None)
+    if rest is None:
+        return None
+    allp = done + [(c, a) for _, c, a in rest]
+    app = [(c, a) for c, a in allp if a is not None]
+    if not app or len(allp) > 16:
+        return None
+    names = {n.id for c, a in app for z in [a] + [t for t, _ in c] for n in ast.walk(z) if isinstance(n, ast.Name)}
+    if acc in names:
+        return None
+
+    def conj(c):
+        parts = [t if p else ast.UnaryOp(op=ast.Not(), operand=t) for t, p in c]
+        if not parts:
+            return ast.Constant(value=True)
+        return parts[0] if len(parts) == 1 else ast.BoolOp(op=ast.And(), values=parts)
+    elt = _copy.deepcopy(app[-1][1])
+    for c, a in reversed(app[:-1]):
+        elt = ast.IfExp(test=_copy.deepcopy(conj(c)), body=_copy.deepcopy(a), orelse=elt)
+    ifs = []
+    if len(app) < len(allp):                       # some path appends nothing: the others are the filter
+        cs = [_copy.deepcopy(conj(c)) for c, _ in app]
+        ifs = [cs[0] if len(cs) == 1 else ast.BoolOp(op=ast.Or(), values=cs)]
+    comp = ast.ListComp(elt=elt, generators=[ast.comprehension(target=_copy.deepcopy(loop.target), iter=_copy.deepcopy(loop.iter),
+                                                              ifs=ifs, is_async=0)])
+    return ast.fix_missing_locations(comp)
+
+
 class Labeller:
     def __init__(self, ctx, func: Func, mapvar: Optional[str] = None, params: Optional[Dict[str, Lab]] = None):
         self.ctx, self.prog, self.f = ctx, ctx.prog, func
@@ -222,6 +333,11 @@ class Labeller:
         after = [y for x in block[i_use:] for y in ast.walk(x) if isinstance(y, ast.Name) and y.id == name]
         if len(mentions) != 1 + len(inside) + len(after) or any(not isinstance(y.ctx, ast.Load) for y in after):
             return None
+        sym = _loop_as_comprehension(loop, name)
+        if sym is not None:
+            ast.copy_location(sym, init)
+            ast.fix_missing_locations(sym)
+            return sym
         if len(inside) > 1:
             # for v in X:  if A: name.append(E1)  elif B: name.append(E2) [...]   ->   [E1 if A else E2 for v in X if A or B]
             import copy as _copy
@@ -1129,6 +1245,45 @@ def _derived_from_other_param(init: Func, feed: str, store_stmt, init_params):
     return None
 
 
+def _memoised_name_list(ctx, o, cl: Func, sn: str) -> bool:
+    """`for k in NAMES: copy.__setattr__(k, getattr(self, k))` where NAMES comes (on some path) from state kept on the CLASS
+    (`Task.__x.get(..)`, `type(self).__x`, `self.__class__.__x`): the attribute names of one task are reused for all others.
+    Returns True when this shape was found (and refuted)"""
+    flow = flow_of(cl)
+    cfg = cfg_of(cl)
+    found = False
+    for fo in walk_no_nested(cl.node):
+        if not (isinstance(fo, ast.For) and isinstance(fo.target, ast.Name) and isinstance(fo.iter, ast.Name)):
+            continue
+        k = fo.target.id
+        copies = False
+        for n in ast.walk(fo):
+            m = match("$d.__setattr__($k, $v)", n) or match("setattr($d, $k, $v)", n) if isinstance(n, ast.Call) else None
+            if m and isinstance(m['k'], ast.Name) and m['k'].id == k:
+                v = m['v']
+                if _reads_attr(v, ast.Name(id=sn, ctx=ast.Load()), k, None) or match(f"getattr({sn}, {k}, $dflt)", v):
+                    copies = True
+        if not copies:
+            continue
+        for d in flow.reaching(fo.iter.id, cfg.node_of(fo)):
+            if d.kind != 'assign' or d.value is None:
+                continue
+            for a in ast.walk(d.value):
+                if isinstance(a, ast.Attribute) and (
+                        (isinstance(a.value, ast.Name) and a.value.id in ctx.prog.classes) or match(f"type({sn})", a.value)
+                        or match(f"{sn}.__class__", a.value)) and a.attr != '__dict__':
+                    o.refute(cl, d.stmt, f"{unmangle(a.attr)} [attribute names memoised on the class]",
+                             f"Task.clone copies the attributes named in `{fo.iter.id}`, which `{src(d.stmt)[:70]}` takes from "
+                             f"`{src(a)}` - state kept on the CLASS and shared by all tasks: the names collected from one task are "
+                             f"reused for every other one, so a custom attribute the first cloned task did not have is never copied; "
+                             f"the names must come from THIS task's own __dict__ on every call")
+                    found = True
+                    break
+            if found:
+                break
+    return found
+
+
 def _is_mutable_init(v: ast.AST) -> bool:
     return isinstance(v, (ast.List, ast.Dict, ast.Set, ast.ListComp, ast.DictComp, ast.SetComp)) or \
         (isinstance(v, ast.Call) and isinstance(v.func, ast.Name) and v.func.id in ('list', 'dict', 'set'))
@@ -1319,7 +1474,9 @@ def _fields(ctx, o):
         if fine:
             loop_ok = True
             o.site(l.func, l.for_node, "for k in self.__dict__: if not k.startswith('_'): copy.__setattr__(k, self.__getattribute__(k))")
-    if not loops:
+    if not loops and _memoised_name_list(ctx, o, cl, sn):
+        pass
+    elif not loops:
         if copy_idiom_in_reach(ctx, cl, {'task.Task.__init__'}):
             o.undecided(cl, cl.node, 'attribute copy', "Task.clone copies attributes in an idiom the rule does not recognise")
         else:
@@ -1530,6 +1687,7 @@ class CloneAnalysis:
         self.registrations: List[tuple] = []        # (function, construct node, [relations scanned]) non-clones put into the clone map
         self._identity_rels: Dict[str, ast.AST] = {}    # dependency relations rebuilt as `x if <x outside> else map[x.id]` (fully ok)
         self._identity_seen = set()                 # ... element recognised (filter possibly wrong)
+        self._outside_by_id: List[tuple] = []       # identity-form elements that still resolve an outside task by id
         self._lookup_rels: Dict[str, ast.AST] = {}  # dependency relations rebuilt as `map[x.id] ... if x.id in map`
         self.staging_calls: List[tuple] = []        # (call, helper, accumulator) of helpers that build the outside-task dict
         self.setdefaults: List[tuple] = []          # (function, labeller, call)
@@ -2601,6 +2759,7 @@ class CloneAnalysis:
                 rel_bad('refute', f"`{rel}` of the copy: a selected member is handed to the copy as itself (`{sh(comp.elt)[:70]}`), not as "
                                   f"its clone: the copy is wired into the source WBS")
             elif (v(True, False) and not own(True, False)) or (v(True, True) and not own(True, True)):
+                self._outside_by_id.append((st, rel, sh(comp.elt)[:70]))
                 rel_bad('refute', f"`{rel}` of the copy: a task OUTSIDE the source WBS is looked up by its id among the member clones "
                                   f"(`{sh(comp.elt)[:70]}`): it is replaced by a member's clone with the same id or raises KeyError; "
                                   f"outside link ends must be handed over as themselves")
@@ -2657,13 +2816,22 @@ class CloneAnalysis:
                acc = []; for v in <param>: [if A:] acc.append(E1) [elif B: acc.append(E2)]; return acc
         -> the comprehension it computes, in the caller's terms (parameters replaced by the expanded arguments); None otherwise.
         With map_arg: additionally the helper must use the parameter bound to that argument read-only (subscript / get / in)."""
-        if not (isinstance(call, ast.Call) and isinstance(call.func, ast.Attribute) and isinstance(call.func.value, ast.Name)
-                and call.func.value.id == F.self_name and F.cls and not call.keywords
-                and not any(isinstance(a, ast.Starred) for a in call.args)):
+        if not isinstance(call, ast.Call) or call.keywords or any(isinstance(a, ast.Starred) for a in call.args):
             return None
-        h = self.prog.find_method(F.cls, unmangle(call.func.attr))
-        if h is None or h.kind != 'method' or h is F or len(call.args) != len(h.params) - 1:
-            return None
+        closure = False
+        if isinstance(call.func, ast.Name):
+            # local closure of the function:  def link_targets(tasks): ...   (self and the clone map are free variables)
+            h = self.prog.funcs.get(F.qual + '.' + call.func.id)
+            if h is None or h.kind != 'nested' or len(call.args) != len(h.params) or len(flow_of(F).defs_of(call.func.id)) > 1:
+                return None
+            closure = True
+        else:
+            if not (isinstance(call.func, ast.Attribute) and isinstance(call.func.value, ast.Name)
+                    and call.func.value.id == F.self_name and F.cls):
+                return None
+            h = self.prog.find_method(F.cls, unmangle(call.func.attr))
+            if h is None or h.kind != 'method' or h is F or len(call.args) != len(h.params) - 1:
+                return None
         body = [b for b in h.body if not (isinstance(b, ast.Expr) and isinstance(b.value, ast.Constant))]
         if len(body) != 3 or not isinstance(body[2], ast.Return) or not isinstance(body[2].value, ast.Name) or \
                 not isinstance(body[1], ast.For) or any(isinstance(r, ast.Return) for r in ast.walk(body[1])):
@@ -2673,11 +2841,14 @@ class CloneAnalysis:
         comp = hl._block_accumulator(body[2].value.id, rn) if rn is not None else None
         if comp is None:
             return None
-        ps = list(h.params)[1:]
+        ps = list(h.params) if closure else list(h.params)[1:]
         if any(len(hl.flow.defs_of(p_)) != 1 for p_ in ps):
             return None
-        if map_arg is not None:
-            pm = [p_ for p_, a_ in zip(ps, call.args) if a_ is map_arg]
+        if closure and (set(ps) & {F.self_name, L.mapvar} or any(
+                isinstance(n_, ast.Name) and isinstance(n_.ctx, ast.Store) and n_.id in (F.self_name, L.mapvar) for n_ in ast.walk(h.node))):
+            return None
+        if map_arg is not None or closure:
+            pm = [L.mapvar] if closure else [p_ for p_, a_ in zip(ps, call.args) if a_ is map_arg]
             if len(pm) != 1:
                 return None
             par = _parent_map(h.node)
@@ -2691,7 +2862,7 @@ class CloneAnalysis:
                         return None
         from sa.flow import subst
         import copy as _copy
-        bind = {h.self_name: ast.Name(id=F.self_name, ctx=ast.Load())}
+        bind = {} if closure else {h.self_name: ast.Name(id=F.self_name, ctx=ast.Load())}
         for p_, a_ in zip(ps, call.args):
             bind[p_] = a_ if (isinstance(a_, ast.Name) and L.is_map(a_)) else L.expand(a_, cn)
         bound = {n_.id for g_ in comp.generators for n_ in ast.walk(g_.target) if isinstance(n_, ast.Name)}
@@ -2762,6 +2933,11 @@ class CloneAnalysis:
             if t == 'NONE':
                 return ('refute', f"the filter tests `{src(e)}` (wbs against None): detached tasks are outside the source WBS as well, "
                                   f"links to them must be kept; the only owner test allowed is `{x}.wbs != self`")
+            for pat_, pos_ in (("$m.get($k) is not None", True), ("$m.get($k) is None", False), ("$m.get($k)", True),
+                               ("$m.get($k, None) is not None", True), ("$m.get($k, None) is None", False)):
+                mg = match(pat_, e)
+                if mg and L.is_map(mg['m']) and match(f"{x}.id", mg['k']):
+                    return lambda o, i, pos=pos_: i == pos      # the clone map holds no None values
             m = match("$k in $m", e) or match("$k not in $m", e)
             if m and L.is_map(m['m']) and match(f"{x}.id", m['k']):
                 pos = isinstance(e.ops[0], ast.In)
@@ -2860,6 +3036,10 @@ class CloneAnalysis:
                         f"subtree() the id of a non-selected member can resolve to an outside task. Hand outside link ends to the copy as "
                         f"themselves: `[x if x.wbs != self else map[x.id] for x in src.{rels[0] if rels else 'predecessors'} "
                         f"if x.wbs != self or x.id in map]`")
+        for st_, r_, txt_ in self._outside_by_id:
+            self.refute(f, st_, f"<map>[<x>.id] [{r_}: outside link end looked up by id]",
+                        f"`{txt_}` resolves a link end of `{r_}` by its id in the map of member clones BEFORE (or without) asking whether it is "
+                        f"outside the source WBS: an outside task whose id equals a member's id is replaced by that member's clone")
         for r in DEP_RELS:
             if r in self._identity_rels:
                 self.site(f, self._identity_rels[r], f"{r}: outside tasks as themselves, `map[x.id]` only for members (x.wbs == self)")
